@@ -9,6 +9,11 @@ NPROC = int(os.environ.get('VERIF_NPROC') or min(16, os.cpu_count() or 1))
 EXIT_OK, EXIT_VIOLATION, EXIT_INCONCLUSIVE = 0, 1, 2
 
 
+class ConcreteViolation(Exception):
+    """raised by a self check that runs the REAL libraries on concrete inputs and sees the property fail (never a false alarm: no model involved)"""
+    def __init__(self, kind, detail): self.kind = kind; self.detail = detail
+
+
 class Harness:
     """one symbolic harness = scenario function + metadata.
 
@@ -123,6 +128,12 @@ def run_check(prop_id, tier, harnesses, level_explanation, trusted_base=(), extr
         try:
             msg = fn()
             per.append({'selfcheck': name, 'result': msg})
+        except ConcreteViolation as cv:
+            digest = hashlib.sha1((cv.kind + cv.detail).encode()).hexdigest()[:10]
+            path = os.path.join(VERIF, 'replays', f'{prop_id}-{digest}.json')
+            json.dump({'property': prop_id, 'harness': f'selfcheck:{name}', 'tier': tier, 'kind': cv.kind, 'observed': cv.detail, 'signature': {'kind': cv.kind, 'concrete': True},
+                       'note': 'found by the concrete real-library validation step, not by the solver'}, open(path, 'w'), indent=1)
+            violations.append((path, {'kind': cv.kind, 'detail': cv.detail}))
         except Exception as ex:
             problems.append(f'selfcheck {name} failed: {ex!r}')
             traceback.print_exc()
